@@ -74,6 +74,15 @@ class PartialVal:
     def pyvc_call(self, ex, st, args, kwargs, node, prims):
         return prims.call(ex, st, self.fn, self.args + list(args), {**self.kwargs, **kwargs}, node)
 
+    def pyvc_getattr(self, ex, st, attr, node, prims):
+        if attr == "func":
+            return self.fn
+        if attr == "keywords":
+            return dict(self.kwargs)
+        if attr == "args":
+            return tuple(self.args)
+        raise Unsupported(f"attribute {attr!r} of a functools.partial object")
+
 
 class Raised:
     """Result of a modelled call that raises (the statement executor turns it into a RAISE signal)."""
@@ -111,6 +120,8 @@ class Opaque:
         return Opaque(f"{self.what}.{attr}()")
 
     def pyvc_compare(self, ex, st, op, other, flip, node, prims):
+        if other is self and isinstance(op, (ast.Eq, ast.NotEq)):
+            return isinstance(op, ast.Eq)  # the very same object equals itself
         return z3.Bool(f"opq!{fresh('o').decl().name()}")
 
     def pyvc_binop(self, ex, st, op, other, flip, node, prims):
@@ -579,6 +590,8 @@ class Prims:
         if hasattr(base, "pyvc_getattr"):
             return base.pyvc_getattr(ex, st, attr, node, self)
         if isinstance(base, RepoFunc):
+            if attr == "__name__":
+                return base.name
             return ModRef(f"flox.core.{base.name}.{attr}")  # class attribute / enum member
         if isinstance(base, ModRef):
             if base.path == "numpy" and attr == "nan":
